@@ -223,6 +223,54 @@ pub fn run_edit(c: &EditCase) -> CaseResult {
     Ok(1)
 }
 
+// ----- configuration path: names -> advertised list -----
+
+#[derive(Serialize, Deserialize, Clone, Debug)]
+pub struct NameCase {
+    pub names: Vec<String>,
+}
+
+pub fn run_names(c: &NameCase) -> CaseResult {
+    let refs: Vec<&str> = c.names.iter().map(|s| s.as_str()).collect();
+    let res = mk_crypto(node_id(1), &cfg_with_key(0, &[0], &refs), [3.0, 2.0, 1.0]);
+    // reference: case-insensitive names; empty list = all three ciphers without plain; unknown name = configuration error
+    let mut want_plain = false;
+    let mut want: Vec<u8> = vec![];
+    let mut unknown = false;
+    for n in &c.names {
+        match n.to_uppercase().as_str() {
+            "UNENCRYPTED" | "NONE" | "PLAIN" => want_plain = true,
+            "AES128" | "AES128_GCM" | "AES_128" | "AES_128_GCM" => want.push(1),
+            "AES256" | "AES256_GCM" | "AES_256" | "AES_256_GCM" => want.push(2),
+            "CHACHA" | "CHACHA20" | "CHACHA20_POLY1305" => want.push(3),
+            _ => unknown = true,
+        }
+    }
+    if c.names.is_empty() {
+        want = vec![1, 2, 3];
+    }
+    match res {
+        Err(e) => {
+            if unknown {
+                Ok(0)
+            } else {
+                Err(Fail::new("names_rejected", format!("{:?} rejected: {}", c.names, e)))
+            }
+        }
+        Ok(cr) => {
+            if unknown {
+                return Err(Fail::new("unknown_name_accepted", format!("{:?} accepted", c.names)));
+            }
+            let a = cr.verif_algorithms();
+            let got: Vec<u8> = a.algorithm_speeds.iter().map(|(al, _)| cv::init_verif::algorithm_id(al)).collect();
+            if got != want || a.allow_unencrypted != want_plain {
+                return Err(Fail::new("wrong_advertised_list", format!("{:?} -> ciphers {:?} plain {}, expected {:?} plain {}", c.names, got, a.allow_unencrypted, want, want_plain)));
+            }
+            Ok(1 + want.len() as u64 + 8 * want_plain as u64)
+        }
+    }
+}
+
 fn sides(grid: &[f32]) -> Vec<Side> {
     let mut opts: Vec<Option<f32>> = vec![None];
     opts.extend(grid.iter().map(|g| Some(*g)));
@@ -259,6 +307,16 @@ pub fn run(ctx: &Ctx) {
         }
     }
     sweep_list(ctx, "list_edits", &edits, SweepOpts { trivial_classes: vec![0], ..Default::default() }, run_edit);
+    // configuration path: all lists of up to 2 names from the vocabulary (upper, lower, mixed case, aliases, unknown), plus empty
+    let vocab = ["AES128", "aes128", "Aes_128_Gcm", "aes256", "AES_256", "chacha", "ChaCha20_Poly1305", "plain", "NONE", "Unencrypted", "des", ""];
+    let mut names = vec![NameCase { names: vec![] }];
+    for a in vocab {
+        names.push(NameCase { names: vec![a.to_string()] });
+        for b in vocab {
+            names.push(NameCase { names: vec![a.to_string(), b.to_string()] });
+        }
+    }
+    sweep_list(ctx, "algorithm_names", &names, SweepOpts { trivial_classes: vec![0], ..Default::default() }, run_names);
     ctx.assume("speeds are drawn from a finite grid including ties, zero and (thorough) 3e38; NaN is excluded as the statement says");
     ctx.assume("ties between equally fast common ciphers may be broken any way, but the same way for every list order and either initiator");
 }
@@ -267,6 +325,7 @@ pub fn replay(family: &str, case: &Value) -> Option<CaseResult> {
     match family {
         "pairs" => replay_with::<Case>(case, run_case),
         "list_edits" => replay_with::<EditCase>(case, run_edit),
+        "algorithm_names" => replay_with::<NameCase>(case, run_names),
         _ => None,
     }
 }
